@@ -47,8 +47,8 @@ Definition defaults_ok (ts : list p19) (cat mo : list N) : bool :=
 
 Definition spec_C19 (i : winput) (o : obs_C19) : bool :=
   match fst i with
-  | WBytes _ =>
-      (* every binary load ends in build_with_defaults *)
+  | WBytes _ | WJax _ _ _ _ =>
+      (* every binary load and every JAX load ends in build_with_defaults *)
       match o with Ok (ts, cat, mo) => defaults_ok ts cat mo | _ => true end
   | WSub _ _ _ => true                   (* sub_ontology ends in build_minimal: no defaults *)
   | WBuilder s =>
